@@ -2707,3 +2707,46 @@ mod tests {
         }
     }
 }
+
+/// Verification hooks (feature `verif`): public wrappers that forward to the private
+/// handlers of this module, so that an external model-checking harness can drive a real
+/// `AutoAllocState` one step at a time (what the `cfg(test)` module above does from inside).
+#[cfg(feature = "verif")]
+pub mod verif {
+    use super::*;
+
+    /// `handle_message` verbatim.
+    pub async fn handle_message(
+        autoalloc: &mut AutoAllocState,
+        events: &EventStreamer,
+        message: AutoAllocMessage,
+    ) -> bool {
+        super::handle_message(autoalloc, events, message).await
+    }
+
+    /// `perform_submits` verbatim (builds the private `AutoallocSenders`).
+    pub async fn perform_submits(
+        autoalloc: &mut AutoAllocState,
+        server: &ServerRef,
+        events: &EventStreamer,
+    ) -> anyhow::Result<()> {
+        let senders = AutoallocSenders {
+            server: server.clone(),
+            events: events.clone(),
+        };
+        super::perform_submits(autoalloc, &senders).await
+    }
+
+    /// `do_periodic_update` verbatim (builds the private `AutoallocSenders`).
+    pub async fn do_periodic_update(
+        autoalloc: &mut AutoAllocState,
+        server: &ServerRef,
+        events: &EventStreamer,
+    ) {
+        let senders = AutoallocSenders {
+            server: server.clone(),
+            events: events.clone(),
+        };
+        super::do_periodic_update(&senders, autoalloc).await
+    }
+}
